@@ -421,7 +421,11 @@ class SimTimer:
             elif self in sim.timers:
                 sim.advance(max(0, self.due_ms - sim.now_ms))
             else:
-                break
+                # the callback is running but cannot proceed (it waits for a
+                # lock the joining thread holds): nobody can ever run again
+                sim.deadlock = True
+                sim.ev("deadlock", me, "join")
+                raise Deadlock("join() on a timer whose callback is blocked")
 
     def setDaemon(self, v):  # noqa: N802 - threading API
         self.daemon = v
